@@ -2,7 +2,6 @@
 
 from __future__ import annotations
 
-from functools import lru_cache
 from ipaddress import NetmaskValueError, IPv4Address, IPv4Network
 from itertools import product
 
@@ -40,6 +39,7 @@ class Wildcard(Base):
         """
         self.ipnet: OIpNet = None  # IPv4Network of contiguous wildcard
         self._ncwb: LInt = []  # non-contiguous wildcard bits
+        self._ipnets: LIpNet = []  # memo of ipnets(), reset when line is changed
         self._prefixlen: int = 0  # Prefix length of contiguous wildcard
         super().__init__(**kwargs)  # platform, note
         self.max_ncwb: int = init_max_ncwb(**kwargs)
@@ -71,6 +71,7 @@ class Wildcard(Base):
     @line.setter
     def line(self, line: str) -> None:
         line = h.init_line(line)
+        self._ipnets = []
         prefix_o, wildmask_o = self._create_prefix(line)
         self._prefix = prefix_o
         self._wildmask = wildmask_o
@@ -180,7 +181,6 @@ class Wildcard(Base):
             data["uuid"] = self.uuid
         return data
 
-    @lru_cache
     def ipnets(self) -> LIpNet:
         """List of IPv4Network that match this wildcard.
 
@@ -190,6 +190,8 @@ class Wildcard(Base):
             wildcard.ipnets() -> [IPv4Network("10.0.0.0/30"),
                                   IPv4Network("10.0.1.0/30")]
         """
+        if self._ipnets:
+            return self._ipnets
         ipnets: LIpNet = []
         prefix_i = int(self._prefix)
         repeat = len(self._ncwb)
@@ -203,6 +205,7 @@ class Wildcard(Base):
                     prefix_i_ &= ~mask
             ipnet = IPv4Network((prefix_i_, self._prefixlen))
             ipnets.append(ipnet)
+        self._ipnets = ipnets
         return ipnets
 
     # =========================== helper =============================
